@@ -466,6 +466,8 @@ def replay(pid, path):
 
 # small helpers shared by checks ---------------------------------------
 def close(a, b, rtol=1e-9, atol=0.0):
+    if not (math.isfinite(a) and math.isfinite(b)):
+        return a == b  # |inf - x| <= rtol * inf would accept anything
     return abs(a - b) <= atol + rtol * max(abs(a), abs(b))
 
 
